@@ -777,6 +777,22 @@ func (e *Engine) loopHeader(st *State, fr *Frame, b, prev *ssa.BasicBlock, ord i
 	for _, inv := range ls.Invariants {
 		st.assume(env.boolTerm(inv.Expr))
 	}
+	if fr.contract != nil {
+		for _, u := range fr.contract.Using {
+			func() {
+				defer func() {
+					if r := recover(); r != nil {
+						if _, ok := r.(engineError); !ok {
+							panic(r)
+						}
+					}
+				}()
+				for _, h := range e.instantiateLemma(env, u) {
+					st.assume(h)
+				}
+			}()
+		}
+	}
 	return nil, false
 }
 
